@@ -14,11 +14,13 @@ import Nebula.Lemmas.SegmentRun
 import Nebula.Lemmas.SegmentCsum
 import Nebula.Lemmas.SegmentTop
 import Nebula.Lemmas.SegmentPipeline
+import Nebula.Lemmas.SegmentFinish
 import Nebula.Spec.Segment
 
 namespace Nebula.Props.C24
 open Nebula.Csum Nebula.Segment Nebula.Lemmas.Segment Nebula.Lemmas.SegmentRun
 open Nebula.Lemmas.SegmentInv Nebula.Lemmas.SegmentTop Nebula.Lemmas.SegmentPipeline
+open Nebula.Lemmas.SegmentSame
 
 /-! ### geometry: count, sizes, payload concatenation -/
 
@@ -264,6 +266,72 @@ theorem tcp_flags_emitted {pkt : List UInt8} {hdrLen cs g : Nat} {segs : List (L
 
 example : v4 exTCP4 ∧ 40 = 20 + byteAt exTCP4 (20 + 12) / 16 * 4 ∧ 40 + min 3 (exTCP4.length - 40) ≤ 65535 := by
   decide
+
+/-! ### nothing else changes; the segment's own pseudo-header -/
+
+/-- **Unwritten header bytes (TCP).** Every byte of the L3+L4 header of every emitted segment, other than
+the ones the segmenter writes (IPv4: total length, ID, checksum; IPv6: payload length; TCP: sequence
+number, flags byte, checksum), equals the superpacket's — version/IHL, TOS, fragment word, TTL,
+protocol, addresses, IP options / extension headers, ports, ack, data offset, window, urgent, TCP
+options. -/
+theorem tcp_header_unchanged {pkt : List UInt8} {hdrLen cs g : Nat} {segs : List (List UInt8)}
+    (h : segmentTCP pkt hdrLen cs g = .ok segs) (hwf : v4 pkt ∨ 40 ≤ cs) (i : Nat) (hi : i < segs.length)
+    (j : Nat) (hj : j < hdrLen) (hip : ¬ ipWritten (decide (v4 pkt)) j)
+    (hl4 : j ≠ cs + 4 ∧ j ≠ cs + 5 ∧ j ≠ cs + 6 ∧ j ≠ cs + 7 ∧ j ≠ cs + 13 ∧ j ≠ cs + 16 ∧ j ≠ cs + 17) :
+    (segs[i]).getD j 0 = pkt.getD j 0 :=
+  tcp_unwritten h hwf i hi j hj hip hl4
+
+/-- **Unwritten header bytes (UDP)** (UDP writes: length and checksum). -/
+theorem udp_header_unchanged {pkt : List UInt8} {hdrLen cs g : Nat} {segs : List (List UInt8)}
+    (h : segmentUDP pkt hdrLen cs g = .ok segs) (hwf : v4 pkt ∨ 40 ≤ cs) (i : Nat) (hi : i < segs.length)
+    (j : Nat) (hj : j < hdrLen) (hip : ¬ ipWritten (decide (v4 pkt)) j)
+    (hl4 : j ≠ cs + 4 ∧ j ≠ cs + 5 ∧ j ≠ cs + 6 ∧ j ≠ cs + 7) :
+    (segs[i]).getD j 0 = pkt.getD j 0 :=
+  udp_unwritten h hwf i hi j hj hip hl4
+
+example : ¬ ipWritten (decide (v4 exTCP4)) 12 ∧ ipWritten (decide (v4 exTCP4)) 10 := by decide
+
+/-- **TCP checksum against the segment's own pseudo-header** — exactly the clause of the specification
+(`Spec.Segment.checkL4`): the RFC 9293 / RFC 8200 pseudo-header bytes are built from the *segment's*
+addresses, version and length. -/
+theorem tcp_csum_valid_own {pkt : List UInt8} {hdrLen cs g : Nat} {segs : List (List UInt8)}
+    (h : segmentTCP pkt hdrLen cs g = .ok segs) (hwf : v4 pkt ∨ 40 ≤ cs)
+    (hhl : hdrLen = cs + byteAt pkt (cs + 12) / 16 * 4)
+    (hfit : hdrLen + min g (pkt.length - hdrLen) ≤ 65535) (i : Nat) (hi : i < segs.length) :
+    verifies ((segs[i]).drop cs) (wsum (Spec.Segment.pseudoHdr (segs[i]) cs 6)) :=
+  Lemmas.SegmentOwn.tcp_csum_valid_own h hwf hhl hfit i hi
+
+/-- **UDP checksum against the segment's own pseudo-header.** -/
+theorem udp_csum_valid_own {pkt : List UInt8} {hdrLen cs g : Nat} {segs : List (List UInt8)}
+    (h : segmentUDP pkt hdrLen cs g = .ok segs) (hwf : v4 pkt ∨ 40 ≤ cs)
+    (hfit : hdrLen + min g (pkt.length - hdrLen) ≤ 65535) (i : Nat) (hi : i < segs.length) :
+    verifies ((segs[i]).drop cs) (wsum (Spec.Segment.pseudoHdr (segs[i]) cs 17)) :=
+  Lemmas.SegmentOwn.udp_csum_valid_own h hwf hfit i hi
+
+/-! ### FinishChecksum (non-GSO read with NEEDS_CSUM) -/
+
+/-- **FinishChecksum.** With an even `csum_offset` (16 for TCP, 6 for UDP): the completed packet's L4
+bytes verify against the partial pseudo-header sum the kernel left in the checksum field; a UDP checksum
+is never transmitted as 0; the length is unchanged and no byte other than the two checksum bytes
+changes. -/
+theorem finish_checksum_valid {seg res : List UInt8} {h : Hdr} (he : finishChecksum seg h = .ok res)
+    (hco : h.csumOffset % 2 = 0) :
+    verifies (res.drop h.csumStart) (be16 seg (h.csumStart + h.csumOffset)) ∧
+    res.length = seg.length ∧
+    (h.csumOffset = 6 → be16 res (h.csumStart + 6) ≠ 0) ∧
+    (∀ j, j ≠ h.csumStart + h.csumOffset → j ≠ h.csumStart + h.csumOffset + 1 → res.getD j 0 = seg.getD j 0) :=
+  Lemmas.SegmentFinish.finishChecksum_valid he hco
+
+example : (match finishChecksum exUDP6 ⟨1, 0, 0, 0, 40, 6⟩ with
+    | .ok r => r.length == exUDP6.length
+    | .error _ => false) = true := by decide +kernel
+
+/-- The non-GSO read path delivers the packet unchanged, or as completed by `FinishChecksum`. -/
+theorem pipeline_plain {h : Hdr} {pkt : List UInt8} {segs : List (List UInt8)}
+    (hg : h.gso = GSO_NONE) (he : readAndSegment h pkt = .ok segs) :
+    (h.flags % 2 = F_NEEDS_CSUM → ∃ p, finishChecksum pkt h = .ok p ∧ segs = [p]) ∧
+    (h.flags % 2 ≠ F_NEEDS_CSUM → segs = [pkt]) :=
+  Lemmas.SegmentFinish.readAndSegment_plain hg he
 
 /-! ### the read path: no panic, and it *is* the segmenter -/
 
